@@ -60,6 +60,11 @@ def chooser(c, kind, a, tr, rnd):
     if kind == 3:
         ln = a[1]
         r = rnd.random()
+        # aimed at the partial-write bookkeeping: fail the continuation of a buffer that was sent partially
+        prev = [x for k, x in tr if k == 3 and x[0] == a[0] and x[3] != -1 or False]
+        sends = [x for k, x in tr if k == 3 and x[0] == a[0]]
+        if len(sends) >= 2 and 0 < sends[-2][3] < sends[-2][1] and rnd.random() < prof.get("fail_after_partial", 0.15):
+            return [-1, rnd.choice([EAGAIN, 105, ECONNRESET])]
         if r < prof.get("senderr", 0.08):
             return [-1, rnd.choice([EAGAIN, EPIPE, ECONNRESET])]
         if r < prof.get("senderr", 0.08) + 0.02 and ln > 0:
@@ -334,7 +339,7 @@ def gen_async_case(rnd, i, flavour=None):
                 w.ops.append((28, [s]))
             w.ops.append((44, []))
     c = Case("async%d" % i, w.emit(), [], [], {"kind": "async", "flavour": flavour, "instant": rnd.random() < 0.5,
-                                                "profile": {"timeout": 0.25, "pipe": 0.08}})
+                                                "profile": {"timeout": 0.25, "pipe": 0.08, "fail_after_partial": 0.3}})
     c.meta["pipe_fd"] = 1001
     return c
 
